@@ -396,6 +396,7 @@ func expandQuantifiers(assumes []*Term, goal *Term, rounds int) ([]*Term, *Term)
 // ---------------------------------------------------------------------------
 
 type qfCtx struct {
+	candCap int
 	reads []groundRead
 	sk    map[string]*Term
 	nsk   int
@@ -483,8 +484,12 @@ func (c *qfCtx) candidates(q *Term) []*Term {
 		}
 		return order[i] < order[j]
 	})
-	if len(order) > 40 {
-		order = order[:40]
+	cc := c.candCap
+	if cc == 0 {
+		cc = 40
+	}
+	if len(order) > cc {
+		order = order[:cc]
 	}
 	var out []*Term
 	for _, key := range order {
@@ -579,7 +584,13 @@ func hasQuantifier(t *Term) bool {
 }
 
 // qfWeaken returns a quantifier-free weakening of (assumes, goal).
+var qfForward = false // instantiation order of the quantifier-free weakening (set per attempt by dischargeVC)
+
 func qfWeaken(assumes []*Term, goal *Term, rounds int) ([]*Term, *Term) {
+	return qfWeakenOrder(assumes, goal, rounds, false)
+}
+
+func qfWeakenOrder(assumes []*Term, goal *Term, rounds int, forward bool) ([]*Term, *Term) {
 	any := goal != nil && hasQuantifier(goal)
 	for _, a := range assumes {
 		if any {
@@ -614,11 +625,22 @@ func qfWeaken(assumes []*Term, goal *Term, rounds int) ([]*Term, *Term) {
 		next := make([]*Term, len(assumes))
 		// the goal first, then the assumptions latest first: when the instance budget runs out,
 		// the facts established closest to the assertion have been served
-		if goal != nil {
-			g = c.qf(goal, -1, 0)
-		}
-		for i := len(assumes) - 1; i >= 0; i-- {
-			next[i] = c.qf(assumes[i], +1, 0)
+		if forward {
+			c.candCap = 64
+			for i, a := range assumes {
+				next[i] = c.qf(a, +1, 0)
+			}
+			if goal != nil {
+				g = c.qf(goal, -1, 0)
+			}
+		} else {
+			c.candCap = 40
+			if goal != nil {
+				g = c.qf(goal, -1, 0)
+			}
+			for i := len(assumes) - 1; i >= 0; i-- {
+				next[i] = c.qf(assumes[i], +1, 0)
+			}
 		}
 		out = next
 	}
